@@ -153,6 +153,31 @@ def mapStep (m : MapSt) (op : GOp) : Option (MapSt × GRet) :=
 
 def map : Spec MapSt GOp GRet := detSpec [] mapStep
 
+/-! ### Object pool over a bounded FIFO of free objects (C24)
+
+    `kind`: 0 vyukov_queue_pool, 1 lazy_vyukov_queue_pool, 2 bounded_vyukov_queue_pool.  Objects `1 .. cap` are the
+    preallocated block; larger numbers are heap objects (any number above `cap` is accepted as a heap object: which
+    heap object the allocator returns is not the pool's business).  The operation name does not matter (the
+    harness client decides dynamically whether an operation allocates or deallocates); the RESULT says what
+    happened: `[1, o]` allocated `o`, `[2, p]` deallocated `p`, `[0]` std::bad_alloc, `[-1]` skipped.
+    An allocation must return the OLDEST free object when there is one; it goes to the heap (or fails, bounded
+    pool) only when the free queue is empty. -/
+def poolNext (kind cap : Nat) (q : List Int) (_ : GOp) (r : GRet) : Option (List Int) :=
+  match r with
+  | [1, o] => match q with
+    | x :: rest => if x = o then some rest else none
+    | [] => if kind ≠ 2 ∧ (cap : Int) < o then some [] else none
+  | [2, p] =>
+    if kind = 0 ∧ (cap : Int) < p then some q                -- heap object of the vyukov pool: Delete
+    else if q.length < cap then some (q ++ [p])
+    else if kind = 1 then some q                            -- lazy pool, queue full: Delete
+    else none                                               -- cannot happen: the block has `cap` objects
+  | [0] => if kind = 2 ∧ q = [] then some q else none
+  | [-1] => some q
+  | _ => none
+
+def pool (kind cap : Nat) (initq : List Int) : Spec (List Int) GOp GRet := ⟨initq, poolNext kind cap⟩
+
 /-! ### Concurrent set / map specification.
     libcds runs the user functor of `update` / `find` / `erase` on the item outside the operation's
     linearization point ("func must guarantee that during changing no any other modifications could be made on
